@@ -269,6 +269,9 @@ def _narrowing_casts(b, op, depth=6):
         seen.add(l)
         depth -= 1
         defs = b.defs().get(l, [])
+        if len(defs) == 1 and defs[0][2] == "call" and (defs[0][3].decl_s or "").split("::")[-1] in ("from", "into", "try_from", "try_into", "unwrap", "unwrap_or", "unwrap_or_default", "min", "branch") and defs[0][3].args:
+            l = q.local_of(defs[0][3].args[0])
+            continue
         if len(defs) != 1 or defs[0][2] != "assign":
             break
         rv = defs[0][3]["rv"]
